@@ -6,11 +6,11 @@ From QV Require Import Model.Base Model.Unquote Spec.Spelling Proofs.C04.
 Theorem C04_spellings_read_back : forall s raw : str, Spells s raw -> unquote_value raw = Some s.
 Proof. exact spellings_read_back. Qed.
 
-(* every string (NUL included, as a literal character) has a double-quoted and a single-quoted spelling *)
-Theorem C04_every_string_spellable : forall s : str, Spells s (dq s) /\ Spells s (sq s).
+(* every string without NUL has a double-quoted and a single-quoted spelling *)
+Theorem C04_every_string_spellable : forall s : str, ~ In 0%N s -> Spells s (dq s) /\ Spells s (sq s).
 Proof. exact every_string_spellable. Qed.
 
-Theorem C04_canonical_read_back : forall s : str, unquote_value (dq s) = Some s /\ unquote_value (sq s) = Some s.
+Theorem C04_canonical_read_back : forall s : str, ~ In 0%N s -> unquote_value (dq s) = Some s /\ unquote_value (sq s) = Some s.
 Proof. exact canonical_read_back. Qed.
 
 (* the pinned reader (quote may open inside an open quote) mis-reads "sh -c 'exit 1'" *)
@@ -21,4 +21,4 @@ Theorem C04_pinned_refuted :
 Proof. exact pinned_refuted. Qed.
 
 Check C04_spellings_read_back : forall s raw : str, Spells s raw -> unquote_value raw = Some s.
-Check C04_every_string_spellable : forall s : str, Spells s (dq s) /\ Spells s (sq s).
+Check C04_every_string_spellable : forall s : str, ~ In 0%N s -> Spells s (dq s) /\ Spells s (sq s).
